@@ -5,7 +5,7 @@ from harness import common as C
 from harness import eofgen as G
 from harness import zoo as Z
 
-ANCHORS = ["T3", "T5cpcca", "T5whiten", "T8fwd"]
+ANCHORS = ["T3", "T5cpcca", "T5whiten", "T8fwd", "T7chain"]
 MODELS = ["CpccaCase"]
 RULE = ("pairs of fields with equal sample count, real and complex, feature counts incl. p > n after PCA, alpha grid in [0,1]^2, use_pca on/off "
         "with integer / fractional / 'all' mode counts, n_modes in 1..rank, MCA/CCA/RDA/CPCCA and Complex/Hilbert variants; non-trivial: >= 6 "
@@ -45,7 +45,7 @@ def pearson(a, b):
 def run_models(ctx, rng, N):
     import xeofs as xe
     specs = Z.specs()
-    names = ["CPCCA", "MCA", "CCA", "RDA", "ComplexCPCCA", "ComplexMCA", "HilbertMCA"]
+    names = ["CPCCA", "MCA", "CCA", "RDA", "ComplexCPCCA", "ComplexMCA", "HilbertMCA", "HilbertCPCCA", "HilbertCCA", "HilbertRDA"]
     cases_r, cases_c, meta_r, meta_c = [], [], [], []
     for i in range(N):
         name = names[i % len(names)]
@@ -62,6 +62,8 @@ def run_models(ctx, rng, N):
             wide = False
             n = int(rng.integers(60, 80))
             p1, p2 = int(rng.integers(30, 40)), int(rng.integers(30, 40))
+        if sp.ordered and name != "HilbertMCA" and not wide:
+            n = n + 12      # whitening of the analytic signals needs a well conditioned covariance
         X = Z.data2d(rng, n, p1, "x", cplx=sp.cplx, red=sp.ordered)
         Y = Z.data2d(rng, n, p2, "y", cplx=sp.cplx, red=sp.ordered)
         # fields in small or large physical units (the statements are about the data as given)
@@ -79,11 +81,14 @@ def run_models(ctx, rng, N):
         n_pca = "all" if npca == "all" else (int(min(p1, p2, n - 1)) if npca == "int" else 0.999999)
         kw = dict(use_pca=use_pca, n_pca_modes=n_pca, pca_init_rank_reduction=1.0, solver="full")
         alpha = None
-        if name in ("CPCCA", "ComplexCPCCA"):
+        if name in ("CPCCA", "ComplexCPCCA", "HilbertCPCCA"):
             alpha = [float(rng.choice([0.0, 0.25, 0.5, 0.75, 1.0])), float(rng.choice([0.0, 0.25, 0.5, 0.75, 1.0]))]
             kw["alpha"] = alpha
         else:
-            alpha = {"MCA": [1, 1], "ComplexMCA": [1, 1], "HilbertMCA": [1, 1], "CCA": [0, 0], "RDA": [0, 1]}[name]
+            alpha = {"MCA": [1, 1], "ComplexMCA": [1, 1], "HilbertMCA": [1, 1], "CCA": [0, 0], "RDA": [0, 1], "HilbertCCA": [0, 0], "HilbertRDA": [0, 1]}[name]
+        if sp.ordered:
+            # Hilbert variants: the analytic signal of the (pre-reduced) series is what is whitened and decomposed
+            kw["padding"] = ["none", "exp"][int(rng.integers(0, 2))]
         rank = min(p1, p2, n - 1)
         k = int(rng.integers(1, max(2, rank))) if not many else int(rng.integers(1, 4))
         replay = dict(kind="cross", cls=name, kw=kw, k=k, X=np.asarray(X.values), Y=np.asarray(Y.values), y_time=np.asarray(Y.time.values))
@@ -123,6 +128,25 @@ def run_models(ctx, rng, N):
                         name, kw, sig[:3], factor, ind[:3]), replay)
                 if min(alpha) == 1 and abs(factor - 1) > 1e-12:
                     ctx.violation(key + ":mca-factor", "factor differs from one for MCA", replay)
+        else:
+            # Hilbert variants: the whitening has to be that of the ANALYTIC signal (augmentation first, then whitening)
+            from xeofs.utils.hilbert_transform import _hilbert_transform_with_padding as _ht
+            Xr = m.pca1.transform(m.preprocessor1.transform(X)).transpose("sample", ...).values if use_pca else m.preprocessor1.transform(X).transpose("sample", ...).values
+            Yr = m.pca2.transform(m.preprocessor2.transform(Y)).transpose("sample", ...).values if use_pca else m.preprocessor2.transform(Y).transpose("sample", ...).values
+            Xc, Yc = _ht(np.asarray(Xr, float), padding=kw["padding"]), _ht(np.asarray(Yr, float), padding=kw["padding"])
+            if kw["padding"] == "none":
+                import scipy.signal
+                hx = scipy.signal.hilbert(np.asarray(Xr, float), axis=0)
+                if not np.allclose(Xc, hx - 1j * hx.imag.mean(axis=0), atol=1e-10 * max(1.0, float(np.abs(hx).max()))):
+                    ctx.violation(key + ":hilbert", "%s: the package's Hilbert transform without padding is not the analytic signal" % name, replay)
+            well = np.linalg.cond(Xc) < 1e5 and np.linalg.cond(Yc) < 1e5
+            if well:
+                ind = independent_sigma(Xc, Yc, alpha[0], alpha[1], ddof=1)[:k]
+                factor = ((n - 1) / n) ** ((alpha[0] - 1) / 2 + (alpha[1] - 1) / 2)
+                ctx.dist["c09:hilbert-variant-against-independent-whitening"] += 1
+                if not np.allclose(sig, ind * factor, rtol=1e-6, atol=1e-9 * scale):
+                    ctx.violation(key + ":proportional", "%s%r: singular values %r are not %.6g x those of the independently whitened cross-covariance of the analytic signals %r" % (
+                        name, kw, sig[:3], factor, ind[:3]), replay)
         # MCA: orthonormal components, squared covariance fractions
         if name in ("MCA", "ComplexMCA", "HilbertMCA"):
             for j, Q in enumerate((d["components1"], d["components2"])):
